@@ -8,6 +8,8 @@ TECH = "solver-based symbolic execution of the real go/ssa (symgo) with SMT (z3)
 NOTE = "trusted: go/ssa, the symgo interpreter + environment models (store/codec/math-big as SMT Int), z3; bounds and stubs are listed in checks/<id>.json and repeated in the evidence file"
 
 CLAIMED = {
+ "C01": ("one MsgReportData step and one oracle EndBlocker step through the real msg server / keeper / abci code from an arbitrary stored oracle state satisfying the module invariant (inductive step): accepted iff authorised, pending trigger exactly at min_count, every pending request resolved once with a result mirroring the request, results immutable, expiry prefix in id order, failed/panicking signing creation rolled back", "DESIGN.md §5 C01"),
+ "C03": ("one full pkg/tss signing round per enumerated committee over an algebraic secp256k1 model with the real group order: honest shares verify, any other s / R / signer key is rejected, the aggregate verifies under the group key; polynomial, nonces, message and hash outputs symbolic", "DESIGN.md §5 C03"),
  "C09": ("bounded symbolic execution of ChooseOne/ChooseSome/ChooseSomeMaxWeight with every DRBG draw symbolic: size, range, distinctness and equality with an independent sampling-without-replacement reference", "DESIGN.md §5 C09"),
  "C06": ("bounded symbolic execution of MedianValidatorPriceInfos/CalculatePricesPowers from go/ssa against an order-free reference written from the README; all statuses, powers < 2^64, prices and timestamps of up to n entries (n in checks/C06.json)", "DESIGN.md §5 C06"),
  "C07": ("one MsgVote step through the real feeds and restake keepers from an arbitrary standing-vote state (2 voters x 3 signals): vote <= power as mathematical integers, lock, totals = sum of votes, by-power index order", "DESIGN.md §5 C07"),
